@@ -1,4 +1,5 @@
 mod checks;
+mod gprint;
 mod model;
 mod pipe;
 mod report;
@@ -51,6 +52,7 @@ fn main() {
         "C14" => checks::c14::run(&tier, only.as_ref()),
         "C16" => checks::c16::run(&tier, only.as_ref()),
         "C17" => checks::c17::run(&tier, only.as_ref()),
+        "C18" => checks::c18::run(&tier, only.as_ref()),
         "C08" => checks::c08::run(&tier, only.as_ref()),
         "C03" => checks::c03::run(&tier, only.as_ref()),
         _ => {
